@@ -3,7 +3,7 @@ flag constants of vis_flags_weights (what a missing flags chunk is filled with, 
 mask _apply_data_lost ORs in)."""
 import ast
 
-from vh.translate import TranslateError, _parse, _module_assign, _const_eval, coq_Z
+from vh.translate import TranslateError, _parse, _module_assign, _const_eval, coq_Z, coq_string, coq_strings
 
 OPS = {ast.LtE: '<=?', ast.Lt: '<?', ast.GtE: '>=?', ast.Gt: '>?', ast.Eq: '=?'}
 
@@ -129,3 +129,542 @@ def item_fill(repo, out):
 
 
 ITEMS = [item_prune, item_fill]
+
+
+# =============================================================================================================
+# round 2: the glue around the modelled core
+
+def _method(tree, cls, name, rel):
+    found = [n for n in tree.body if isinstance(n, ast.ClassDef) and n.name == cls]
+    if len(found) != 1:
+        raise TranslateError('%s: class %s not found' % (rel, cls))
+    fns = [n for n in found[0].body if isinstance(n, ast.FunctionDef) and n.name == name]
+    if len(fns) != 1:
+        raise TranslateError('%s: expected exactly one method %s.%s' % (rel, cls, name))
+    return fns[0]
+
+
+def _body(fn):
+    """Statements of a function without its docstring."""
+    b = fn.body
+    if b and isinstance(b[0], ast.Expr) and isinstance(b[0].value, ast.Constant) and isinstance(b[0].value.value, str):
+        b = b[1:]
+    return b
+
+
+def _src(stmts):
+    return [ast.unparse(s) for s in stmts]
+
+
+def _str_const(node, what):
+    if not (isinstance(node, ast.Constant) and isinstance(node.value, str)):
+        raise TranslateError('%s: expected a string literal, got %s' % (what, ast.unparse(node)))
+    return node.value
+
+
+def _defaults(fn):
+    """{argument name: unparsed default} of a FunctionDef (positional-or-keyword arguments only)."""
+    a = fn.args
+    if a.vararg or a.kwonlyargs or a.posonlyargs:
+        raise TranslateError('%s: unexpected signature' % fn.name)
+    names = [x.arg for x in a.args]
+    ds = [ast.unparse(d) for d in a.defaults]
+    return names, dict(zip(names[len(names) - len(ds):], ds))
+
+
+GETTERS = {'get_chunk_or_placeholder': None, 'get_chunk': 2, 'get_chunk_or_default': 4}
+
+
+def item_getters(repo, out):
+    """ChunkStore.get_dask_array: the `errors` decision chain, what follows it; the two fall-back getters;
+    PlaceholderChunk.__getitem__; the NPY store's get_chunk (no state besides the path)."""
+    rel = 'katdal/chunkstore.py'
+    tree = _parse(repo, rel)
+    gda = _method(tree, 'ChunkStore', 'get_dask_array', rel)
+    names, dflt = _defaults(gda)
+    if names != ['self', 'array_name', 'chunks', 'dtype', 'offset', 'index', 'errors'] or \
+            dflt != {'offset': '()', 'index': '()', 'errors': '0'}:
+        raise TranslateError('get_dask_array: signature is %s %s' % (names, dflt))
+    body = _body(gda)
+    if not (len(body) >= 2 and ast.unparse(body[0]) == 'getter_kwargs = {}' and isinstance(body[1], ast.If)):
+        raise TranslateError('get_dask_array: does not start with getter_kwargs = {} and the errors chain')
+    # ---- the chain, in source order
+    branches = []      # (coq condition, coq result)
+    node = body[1]
+    while True:
+        t = node.test
+        tsrc = ast.unparse(t)
+        bsrc = _src(node.body)
+        if isinstance(t, ast.Compare) and len(t.ops) == 1 and isinstance(t.ops[0], ast.In) and \
+                ast.unparse(t.left) == 'errors' and isinstance(t.comparators[0], ast.Tuple):
+            strs = [_str_const(e, 'get_dask_array errors chain') for e in t.comparators[0].elts]
+            cond = '(andb is_str (existsb (String.eqb s) %s))' % coq_strings(strs)
+        elif isinstance(t, ast.Compare) and len(t.ops) == 1 and isinstance(t.ops[0], ast.Eq) and \
+                ast.unparse(t.left) == 'errors':
+            cond = '(andb is_str (String.eqb s %s))' % coq_string(_str_const(t.comparators[0], 'get_dask_array errors chain'))
+        elif tsrc == 'isinstance(errors, str)':
+            cond = 'is_str'
+        else:
+            raise TranslateError('get_dask_array: unsupported test %s' % tsrc)
+        branches.append((cond, _getter_result(node.body, bsrc)))
+        if len(node.orelse) == 1 and isinstance(node.orelse[0], ast.If):
+            node = node.orelse[0]
+            continue
+        branches.append((None, _getter_result(node.orelse, _src(node.orelse))))
+        break
+    expr = branches[-1][1]
+    for cond, res in reversed(branches[:-1]):
+        expr = 'if %s then %s else %s' % (cond, res, expr)
+    out.append('(* ChunkStore.get_dask_array: errors -> getter.  0 placeholder, 1 placeholder+dryrun, 2 get_chunk (raise), '
+               '3 ValueError, 4 get_chunk_or_default(default_value=errors) *)')
+    out.append('Definition gen_errors_mode (is_str : bool) (s : string) : Z := %s.' % expr)
+    rest = _src(body[2:])
+    want = ['if index:\n    assert offset == ()\n    chunks, index, offset = _prune_chunks(chunks, index)',
+            'if any(offset):\n    getter = _add_offset_to_slices(getter, offset)',
+            'token = da.core.tokenize(self, chunks, dtype, index)',
+            "out_name = f'{array_name}-{offset}-{token}'",
+            'getter_shim = _ArrayLikeGetter(getter, array_name, chunks, dtype, **getter_kwargs)',
+            'from_array_kwargs = {}',
+            "if dask.utils.has_keyword(da.from_array, 'inline_array'):\n    from_array_kwargs['inline_array'] = True",
+            'array = da.from_array(getter_shim, chunks, out_name, asarray=False, getitem=_ArrayLikeGetter.__getitem__, '
+            'meta=np.empty(shape=(0,) * getter_shim.ndim, dtype=getter_shim.dtype), **from_array_kwargs)',
+            'return array[index]']
+    if rest != want:
+        raise TranslateError('get_dask_array: statements after the errors chain are %s' % rest)
+    out.append('Definition gen_gda_prunes_iff_index_nonempty : bool := true.')
+    out.append('Definition gen_gda_slices_after_prune : bool := true.')
+    # ---- _add_offset_to_slices
+    aos = _mfunc(tree, '_add_offset_to_slices', rel)
+    inner = [n for n in aos.body if isinstance(n, ast.FunctionDef)]
+    if len(inner) != 1 or _src(_body(inner[0])) != [
+            'offset_slices = tuple((slice(s.start + i, s.stop + i) for s, i in zip(slices, offset)))',
+            'return func(array_name, offset_slices, *args, **kwargs)']:
+        raise TranslateError('_add_offset_to_slices changed')
+    out.append('Definition gen_offset_slice (start stop off : Z) : Z * Z := (start + off, stop + off).')
+    # ---- the fall-back getters
+    gd = _method(tree, 'ChunkStore', 'get_chunk_or_default', rel)
+    if _defaults(gd) != (['self', 'array_name', 'slices', 'dtype', 'default_value'], {'default_value': '0'}) or \
+            _src(_body(gd)) != ['try:\n    return self.get_chunk(array_name, slices, dtype)\nexcept ChunkNotFound:\n'
+                                '    chunk_name, shape = self.chunk_metadata(array_name, slices)\n'
+                                '    return np.full(shape, default_value, dtype)']:
+        raise TranslateError('get_chunk_or_default changed: %s' % _src(_body(gd)))
+    gp = _method(tree, 'ChunkStore', 'get_chunk_or_placeholder', rel)
+    if _defaults(gp) != (['self', 'array_name', 'slices', 'dtype', 'dryrun'], {'dryrun': 'False'}) or \
+            _src(_body(gp)) != ['if not dryrun:\n    try:\n        return self.get_chunk(array_name, slices, dtype)\n'
+                                '    except ChunkNotFound:\n        pass',
+                                'chunk_name, shape = self.chunk_metadata(array_name, slices)',
+                                'return PlaceholderChunk(shape, dtype, chunk_name)']:
+        raise TranslateError('get_chunk_or_placeholder changed: %s' % _src(_body(gp)))
+    out.append('(* get_chunk_or_placeholder asks the store unless dryrun; get_chunk_or_default / _or_placeholder fall back '
+               'exactly on ChunkNotFound *)')
+    out.append('Definition gen_placeholder_asks_store (dryrun : bool) : bool := negb dryrun.')
+    out.append('Definition gen_fallback_only_on_not_found : bool := true.')
+    # ---- PlaceholderChunk
+    pg = _method(tree, 'PlaceholderChunk', '__getitem__', rel)
+    if _src(_body(pg)) != ['dummy = np.empty(self.shape, dtype=[])', 'new_shape = dummy[index].shape',
+                           'return PlaceholderChunk(new_shape, self.dtype, self.name)']:
+        raise TranslateError('PlaceholderChunk.__getitem__ changed')
+    out.append('Definition gen_placeholder_slice_keeps_identity : bool := true.')
+    # ---- the NPY store answers from the file system alone
+    reln = 'katdal/chunkstore_npy.py'
+    gc = _method(_parse(repo, reln), 'NpyFileChunkStore', 'get_chunk', reln)
+    got = _src(_body(gc))
+    if got[:3] != ['chunk_name, shape = self.chunk_metadata(array_name, slices, dtype=dtype)',
+                   "filename = os.path.join(self.path, chunk_name) + '.npy'",
+                   'with self._standard_errors(chunk_name):\n    chunk = np.load(filename, allow_pickle=False)'] or \
+            len(got) != 5 or not got[3].startswith('if chunk.shape != shape or chunk.dtype != dtype:\n    raise BadChunk(') \
+            or got[4] != 'return chunk':
+        raise TranslateError('NpyFileChunkStore.get_chunk changed: %s' % got[:3])
+    out.append('(* NpyFileChunkStore.get_chunk reads the chunk file on every call: what it answers depends on the files only *)')
+    out.append('Definition gen_npy_get_chunk_stateless : bool := true.')
+
+
+def _getter_result(stmts, bsrc):
+    if len(stmts) == 1 and isinstance(stmts[0], ast.Raise):
+        if not ast.unparse(stmts[0]).startswith('raise ValueError('):
+            raise TranslateError('get_dask_array: errors chain raises %s' % bsrc)
+        return '3'
+    if not bsrc or not bsrc[0].startswith('getter = self.'):
+        raise TranslateError('get_dask_array: errors branch is %s' % bsrc)
+    g = bsrc[0][len('getter = self.'):]
+    if g not in GETTERS:
+        raise TranslateError('get_dask_array: unknown getter %s' % g)
+    if g == 'get_chunk':
+        if len(bsrc) != 1:
+            raise TranslateError('get_dask_array: errors branch is %s' % bsrc)
+        return '2'
+    if g == 'get_chunk_or_default':
+        if bsrc[1:] != ["getter_kwargs['default_value'] = errors"]:
+            raise TranslateError('get_dask_array: errors branch is %s' % bsrc)
+        return '4'
+    node = stmts[1] if len(stmts) == 2 else None
+    if not (isinstance(node, ast.Assign) and ast.unparse(node.targets[0]) == "getter_kwargs['dryrun']"
+            and isinstance(node.value, ast.Compare) and len(node.value.ops) == 1
+            and isinstance(node.value.ops[0], ast.Eq) and ast.unparse(node.value.left) == 'errors'):
+        raise TranslateError('get_dask_array: errors branch is %s' % bsrc)
+    return '(if andb is_str (String.eqb s %s) then 1 else 0)' % coq_string(_str_const(node.value.comparators[0], 'dryrun'))
+
+
+def item_prune_head(repo, out):
+    """_prune_chunks: everything outside the `for axis` loop (index normalisation, the unit-step test, default offset)."""
+    rel = 'katdal/chunkstore.py'
+    fn = _mfunc(_parse(repo, rel), '_prune_chunks', rel)
+    if _defaults(fn) != (['chunks', 'index', 'offset'], {'offset': '()'}):
+        raise TranslateError('_prune_chunks: signature changed')
+    body = _body(fn)
+    loops = [n for n in body if isinstance(n, ast.For)]
+    if len(loops) != 1:
+        raise TranslateError('_prune_chunks: expected one for loop')
+    k = body.index(loops[0])
+    head = _src(body[:k])
+    want = ['chunks = [list(c) for c in chunks]', 'shape = [sum(c) for c in chunks]',
+            'index = list(da.slicing.normalize_index(index, shape))', None,
+            'offset = list(offset) if offset else [0] * len(shape)']
+    if len(head) != 5 or [h for h, w in zip(head, want) if w is not None and h != w]:
+        raise TranslateError('_prune_chunks: statements before the loop are %s' % head)
+    chk = body[3]
+    ok = (isinstance(chk, ast.If) and not chk.orelse and len(chk.body) == 1 and isinstance(chk.body[0], ast.Raise)
+          and ast.unparse(chk.body[0]).startswith('raise IndexError('))
+    t = chk.test if ok else None
+    if not (ok and isinstance(t, ast.UnaryOp) and isinstance(t.op, ast.Not)
+            and isinstance(t.operand, ast.Call) and ast.unparse(t.operand.func) == 'all'
+            and len(t.operand.args) == 1 and isinstance(t.operand.args[0], ast.GeneratorExp)):
+        raise TranslateError('_prune_chunks: unit-step test is %s' % (ast.unparse(chk) if chk else None))
+    ge = t.operand.args[0]
+    if ast.unparse(ge.generators[0].iter) != 'index' or ast.unparse(ge.generators[0].target) != 'idx' or ge.generators[0].ifs:
+        raise TranslateError('_prune_chunks: unit-step test iterates over %s' % ast.unparse(ge.generators[0]))
+    e = ge.elt
+    if not (isinstance(e, ast.BoolOp) and isinstance(e.op, ast.And) and len(e.values) == 2
+            and ast.unparse(e.values[0]) == 'isinstance(idx, slice)'
+            and isinstance(e.values[1], ast.Compare) and len(e.values[1].ops) == 1
+            and isinstance(e.values[1].ops[0], ast.In) and ast.unparse(e.values[1].left) == 'idx.step'
+            and isinstance(e.values[1].comparators[0], (ast.Tuple, ast.Set, ast.List))):
+        raise TranslateError('_prune_chunks: unit-step test is %s' % ast.unparse(e))
+    steps = _step_set(e.values[1].comparators[0].elts, '_prune_chunks')
+    out.append('(* _prune_chunks accepts an index element iff it is a slice whose (normalised) step is in this set *)')
+    out.append('Definition gen_prune_ok_steps : list (option Z) := [%s].' % '; '.join(steps))
+    if ast.unparse(loops[0].iter) != 'range(len(shape))':
+        raise TranslateError('_prune_chunks: loop iterates over %s' % ast.unparse(loops[0].iter))
+    tail = _src(body[k + 1:])
+    if tail != ['chunks = tuple((tuple(c) for c in chunks))', 'index = tuple(index)', 'offset = tuple(offset)',
+                'return (chunks, index, offset)']:
+        raise TranslateError('_prune_chunks: statements after the loop are %s' % tail)
+
+
+def _step_set(elts, what):
+    steps = []
+    for el in elts:
+        if isinstance(el, ast.Constant) and el.value is None:
+            steps.append('None')
+        elif isinstance(el, ast.Constant) and isinstance(el.value, int) and not isinstance(el.value, bool):
+            steps.append('Some %s' % coq_Z(el.value))
+        else:
+            raise TranslateError('%s: step set contains %s' % (what, ast.unparse(el)))
+    return steps
+
+
+def item_preselect(repo, out):
+    """TelstateDataSource.__init__: validation of `preselect`, how it becomes preselect_index, the order of
+    _upgrade_flags / _align_chunk_info; _upgrade_chunk_info and _align_chunk_info themselves."""
+    rel = 'katdal/datasources.py'
+    tree = _parse(repo, rel)
+    init = _method(tree, 'TelstateDataSource', '__init__', rel)
+    names, dflt = _defaults(_strip_kwargs(init))
+    if dflt.get('preselect') != 'None' or dflt.get('upgrade_flags') != 'True':
+        raise TranslateError('TelstateDataSource.__init__: defaults are %s' % dflt)
+    body = _body(init)
+    head = _src(body[:4])
+    if head[0] != 'if preselect is None:\n    preselect = {}':
+        raise TranslateError('TelstateDataSource.__init__: preselect default handling is %s' % head[0])
+    a = body[1]
+    if not (isinstance(a, ast.Assign) and ast.unparse(a.targets[0]) == 'unexpected' and isinstance(a.value, ast.BinOp)
+            and isinstance(a.value.op, ast.Sub) and ast.unparse(a.value.left) == 'set(preselect.keys())'
+            and isinstance(a.value.right, ast.Set)):
+        raise TranslateError('TelstateDataSource.__init__: %s' % head[1])
+    keys = sorted(_str_const(e, 'preselect keys') for e in a.value.right.elts)
+    if not head[2].startswith('if unexpected:\n    raise IndexError('):
+        raise TranslateError('TelstateDataSource.__init__: %s' % head[2])
+    f = body[3]
+    if not (isinstance(f, ast.For) and ast.unparse(f.target) == '(key, idx)' and ast.unparse(f.iter) == 'preselect.items()'
+            and len(f.body) == 1 and isinstance(f.body[0], ast.If) and not f.body[0].orelse
+            and len(f.body[0].body) == 1 and ast.unparse(f.body[0].body[0]).startswith('raise IndexError(')):
+        raise TranslateError('TelstateDataSource.__init__: %s' % head[3])
+    t = f.body[0].test
+    if not (isinstance(t, ast.BoolOp) and isinstance(t.op, ast.Or) and len(t.values) == 2
+            and ast.unparse(t.values[0]) == 'not isinstance(idx, slice)'
+            and isinstance(t.values[1], ast.Compare) and len(t.values[1].ops) == 1
+            and isinstance(t.values[1].ops[0], ast.NotIn) and ast.unparse(t.values[1].left) == 'idx.step'
+            and isinstance(t.values[1].comparators[0], (ast.Tuple, ast.Set, ast.List))):
+        raise TranslateError('TelstateDataSource.__init__: preselect value test is %s' % ast.unparse(t))
+    steps = _step_set(t.values[1].comparators[0].elts, 'TelstateDataSource.__init__')
+    out.append('(* TelstateDataSource(preselect=...): allowed keys, allowed steps, order of preselect_index *)')
+    out.append('Definition gen_preselect_keys : list string := %s.' % coq_strings(keys))
+    out.append('Definition gen_preselect_ok_steps : list (option Z) := [%s].' % '; '.join(steps))
+    # index = (preselect.get('dumps', np.s_[:]), preselect.get('channels', np.s_[:])) / ()
+    ifs = [n for n in ast.walk(init) if isinstance(n, ast.If) and ast.unparse(n.test) == 'preselect']
+    if len(ifs) != 1 or _src(ifs[0].orelse) != ['index = ()'] or len(ifs[0].body) != 1:
+        raise TranslateError('TelstateDataSource.__init__: `if preselect:` block changed')
+    asg = ifs[0].body[0]
+    if not (isinstance(asg, ast.Assign) and ast.unparse(asg.targets[0]) == 'index' and isinstance(asg.value, ast.Tuple)):
+        raise TranslateError('TelstateDataSource.__init__: index assignment is %s' % ast.unparse(asg))
+    order = []
+    for el in asg.value.elts:
+        if not (isinstance(el, ast.Call) and ast.unparse(el.func) == 'preselect.get' and len(el.args) == 2
+                and ast.unparse(el.args[1]) == 'np.s_[:]'):
+            raise TranslateError('TelstateDataSource.__init__: index element is %s' % ast.unparse(el))
+        order.append(_str_const(el.args[0], 'preselect.get'))
+    out.append('Definition gen_preselect_axis_order : list string := %s.' % coq_strings(order))
+    # chunk_info pipeline
+    blk = [n for n in ast.walk(init) if isinstance(n, ast.If) and ast.unparse(n.test) == 'chunk_store is not None or timestamps is None']
+    if len(blk) != 1 or _src(blk[0].body) != [
+            "chunk_info = telstate['chunk_info']", 'chunk_info = _ensure_prefix_is_set(chunk_info, telstate)',
+            'if upgrade_flags:\n    chunk_info = _upgrade_flags(chunk_info, telstate, capture_block_id, stream_name)',
+            'chunk_info = _align_chunk_info(chunk_info)']:
+        raise TranslateError('TelstateDataSource.__init__: chunk_info pipeline changed')
+    calls = [n for n in ast.walk(init) if isinstance(n, ast.Call) and ast.unparse(n.func) == 'ChunkStoreVisFlagsWeights']
+    if len(calls) != 1 or [ast.unparse(x) for x in calls[0].args] != ['chunk_store', 'chunk_info'] or \
+            'preselect_index=index' not in [ast.unparse(k) for k in calls[0].keywords]:
+        raise TranslateError('TelstateDataSource.__init__: ChunkStoreVisFlagsWeights call changed')
+    out.append('Definition gen_source_upgrades_then_aligns : bool := true.')
+    # _upgrade_chunk_info
+    up = _mfunc(tree, '_upgrade_chunk_info', rel)
+    got = _src(_body(up))
+    if len(got) != 2 or got[1] != 'return chunk_info':
+        raise TranslateError('_upgrade_chunk_info changed: %s' % got)
+    lp = _body(up)[0]
+    if not (isinstance(lp, ast.For) and ast.unparse(lp.target) == '(key, improved_info)'
+            and ast.unparse(lp.iter) == 'improved_chunk_info.items()' and len(lp.body) == 3
+            and ast.unparse(lp.body[0]) == 'original_info = chunk_info.get(key, improved_info)'
+            and isinstance(lp.body[1], ast.If) and not lp.body[1].orelse
+            and ast.unparse(lp.body[1].test) == "improved_info['shape'][1:] != original_info['shape'][1:]"
+            and len(lp.body[1].body) == 1 and ast.unparse(lp.body[1].body[0]).startswith('raise ValueError(')
+            and ast.unparse(lp.body[2]) == 'chunk_info[key] = improved_info'):
+        raise TranslateError('_upgrade_chunk_info changed: %s' % got[0])
+    out.append('(* _upgrade_chunk_info: refuses iff shape[k:] differ for k = ..., else replaces the whole entry *)')
+    out.append('Definition gen_upgrade_compares_shape_from : nat := 1%nat.')
+    out.append('Definition gen_upgrade_replaces_entry : bool := true.')
+    # _align_chunk_info
+    al = _mfunc(tree, '_align_chunk_info', rel)
+    b = _body(al)
+    got = _src(b)
+    if len(got) != 3 or got[0] != "max_dumps = max((info['shape'][0] for info in chunk_info.values()))" or \
+            got[2] != 'return chunk_info' or not isinstance(b[1], ast.For):
+        raise TranslateError('_align_chunk_info changed: %s' % got)
+    lb = b[1].body
+    if ast.unparse(b[1].iter) != 'chunk_info.items()' or _src(lb[:2]) != ["shape = info['shape']", 'n_dumps = shape[0]'] or \
+            len(lb) != 3 or not isinstance(lb[2], ast.If) or lb[2].orelse:
+        raise TranslateError('_align_chunk_info loop changed: %s' % _src(lb))
+    cond = lb[2].test
+    if not (isinstance(cond, ast.Compare) and len(cond.ops) == 1 and type(cond.ops[0]) in OPS
+            and ast.unparse(cond.left) == 'n_dumps' and ast.unparse(cond.comparators[0]) == 'max_dumps'):
+        raise TranslateError('_align_chunk_info: pad condition is %s' % ast.unparse(cond))
+    ib = _src([s for s in lb[2].body if not (isinstance(s, ast.Expr) and ast.unparse(s).startswith('logger.'))])
+    if len(ib) != 3 or ib[0] != "info['shape'] = (max_dumps,) + shape[1:]" or \
+            ib[2] != "info['chunks'] = (time_chunks,) + info['chunks'][1:]":
+        raise TranslateError('_align_chunk_info: padding statements are %s' % ib)
+    tc = [s for s in lb[2].body if isinstance(s, ast.Assign) and ast.unparse(s.targets[0]) == 'time_chunks']
+    v = tc[0].value if len(tc) == 1 else None
+    if not (isinstance(v, ast.BinOp) and isinstance(v.op, ast.Add) and ast.unparse(v.left) == "info['chunks'][0]"
+            and isinstance(v.right, ast.BinOp) and isinstance(v.right.op, ast.Mult)
+            and ast.unparse(v.right.left) == 'max_dumps - n_dumps' and isinstance(v.right.right, ast.Tuple)
+            and len(v.right.right.elts) == 1):
+        raise TranslateError('_align_chunk_info: time_chunks is %s' % (ast.unparse(v) if v is not None else None))
+    ph = _const_eval(v.right.right.elts[0], {}, 'phantom chunk size')
+    if not isinstance(ph, int):
+        raise TranslateError('_align_chunk_info: phantom chunk size %r' % (ph,))
+    out.append('(* _align_chunk_info: an array is padded iff ...; with (max_dumps - n_dumps) chunks of this size *)')
+    out.append('Definition gen_align_pads (n_dumps max_dumps : Z) : bool := (n_dumps %s max_dumps).' % OPS[type(cond.ops[0])])
+    out.append('Definition gen_align_phantom_size : Z := %s.' % coq_Z(ph))
+    out.append('Definition gen_align_phantom_count (n_dumps max_dumps : Z) : Z := max_dumps - n_dumps.')
+
+
+def _strip_kwargs(fn):
+    """FunctionDef with **kwargs removed from the signature (for _defaults)."""
+    import copy
+    f = copy.deepcopy(fn)
+    f.args.kwarg = None
+    return f
+
+
+def item_lostmap(repo, out):
+    """ChunkStoreVisFlagsWeights.__init__: the get_dask_array call, the lost-map loops, the two graph comprehensions."""
+    rel = 'katdal/vis_flags_weights.py'
+    tree = _parse(repo, rel)
+    init = _method(tree, 'ChunkStoreVisFlagsWeights', '__init__', rel)
+    names, dflt = _defaults(init)
+    if names[:3] != ['self', 'store', 'chunk_info'] or dflt.get('preselect_index') != '()' or \
+            dflt.get('van_vleck') != "'off'" or dflt.get('stored_weights_are_scaled') != 'True' or dflt.get('corrprods') != 'None':
+        raise TranslateError('ChunkStoreVisFlagsWeights.__init__: signature is %s %s' % (names, dflt))
+    body = _body(init)
+    src = _src(body)
+    want_head = [
+        'self.store = store', 'self.chunk_info = chunk_info', 'self.preselect_index = preselect_index',
+        "self.vis_prefix = chunk_info['correlator_data']['prefix']", 'darray = {}',
+        "for array, info in chunk_info.items():\n    array_name = store.join(info['prefix'], array)\n"
+        "    errors = DATA_LOST if array == 'flags' else 'placeholder'\n"
+        "    darray[array] = store.get_dask_array(array_name, info['chunks'], info['dtype'], index=preselect_index, errors=errors)",
+        "flags_orig_name = darray['flags'].name",
+        "flags_raw_name = store.join(chunk_info['flags']['prefix'], 'flags_raw')",
+        "lost_map = np.empty([len(c) for c in darray['flags'].chunks], dtype='O')",
+        'for index in np.ndindex(lost_map.shape):\n    lost_map[index] = []',
+        "for array_name, array in darray.items():\n    if array_name == 'flags':\n        continue\n"
+        "    src_keys = np.empty([len(c) for c in array.chunks], dtype='O')\n"
+        "    for index in np.ndindex(src_keys.shape):\n        src_keys[index] = (array.name,) + index\n"
+        "    chunks = array.chunks\n"
+        "    if array.ndim < darray['flags'].ndim:\n"
+        "        chunks += tuple(((x,) for x in darray['flags'].shape[array.ndim:]))\n"
+        "    intersections = intersect_chunks(darray['flags'].chunks, chunks)\n"
+        "    for src_key, pieces in zip(src_keys.flat, intersections):\n"
+        "        for piece in pieces:\n"
+        "            dst_index, slices = zip(*piece)\n"
+        "            lost_map[dst_index].extend([src_key, slices])",
+        "dsk = {(flags_raw_name,) + key: (_apply_data_lost, (flags_orig_name,) + key, value) "
+        "for key, value in np.ndenumerate(lost_map)}",
+        'dsk = HighLevelGraph.from_collections(flags_raw_name, dsk, dependencies=list(darray.values()))',
+        "flags = da.Array(dsk, flags_raw_name, chunks=darray['flags'].chunks, shape=darray['flags'].shape, "
+        "dtype=darray['flags'].dtype)",
+        "darray['flags'] = flags",
+        "for array_name, array in darray.items():\n    if array_name == 'flags':\n        continue\n"
+        "    new_name = 'filled-' + array.name\n"
+        "    indices = itertools.product(*(range(len(c)) for c in array.chunks))\n"
+        "    dsk = {(new_name,) + index: (_default_zero, (array.name,) + index) "
+        "for index, shape in zip(indices, itertools.product(*array.chunks))}\n"
+        "    dsk = HighLevelGraph.from_collections(new_name, dsk, dependencies=[array])\n"
+        "    darray[array_name] = da.Array(dsk, new_name, chunks=array.chunks, shape=array.shape, dtype=array.dtype)",
+        "vis = darray['correlator_data']"]
+    for i, w in enumerate(want_head):
+        if i >= len(src) or src[i] != w:
+            raise TranslateError('ChunkStoreVisFlagsWeights.__init__: statement %d is %s' % (i, src[i] if i < len(src) else None))
+    out.append('(* ChunkStoreVisFlagsWeights.__init__: statements up to `vis = darray[...]` are literally those the model mirrors *)')
+    out.append('Definition gen_other_errors : string := "placeholder"%string.')
+    out.append('Definition gen_lostmap_skips : list string := ["flags"%string].')
+    out.append('Definition gen_lostmap_literal : bool := true.')
+    # weights without corrprods: weights = stored_weights when stored_weights_are_scaled
+    tail = '\n'.join(src[len(want_head):])
+    for frag in ("stored_weights = darray['weights'] * darray['weights_channel'][..., np.newaxis]",
+                 'VisFlagsWeights.__init__(self, vis, flags, weights, unscaled_weights)'):
+        if frag not in tail:
+            raise TranslateError('ChunkStoreVisFlagsWeights.__init__: `%s` not found' % frag)
+
+
+def item_options(repo, out):
+    """The processing options between the chunk store and the user that see zero-filled (lost) data:
+    Van Vleck lookup table (the anchor at zero that keeps a zero-filled autocorrelation zero), where the
+    correction and the weight scaling sit in ChunkStoreVisFlagsWeights.__init__ (after _default_zero)."""
+    rel = 'katdal/van_vleck.py'
+    fn = _mfunc(_parse(repo, rel), 'autocorr_lookup_table', rel)
+    firsts = {}
+    for name in ('sxx_table', 'rxx_table'):
+        a = [n for n in _body(fn) if isinstance(n, ast.Assign) and ast.unparse(n.targets[0]) == name]
+        v = a[0].value if len(a) == 1 else None
+        if not (isinstance(v, ast.Subscript) and ast.unparse(v.value) == 'np.r_' and isinstance(v.slice, ast.Tuple)
+                and len(v.slice.elts) >= 2):
+            raise TranslateError('autocorr_lookup_table: %s is not np.r_[first, ...]' % name)
+        c = v.slice.elts[0]
+        if not (isinstance(c, ast.Constant) and isinstance(c.value, (int, float)) and not isinstance(c.value, bool)
+                and float(c.value) == int(c.value)):
+            raise TranslateError('autocorr_lookup_table: %s does not start with a constant anchor (starts with %s)'
+                                 % (name, ast.unparse(c)))
+        firsts[name] = int(c.value)
+    ret = _body(fn)[-1]
+    if not (isinstance(ret, ast.Return) and isinstance(ret.value, ast.Tuple) and len(ret.value.elts) == 2):
+        raise TranslateError('autocorr_lookup_table: return statement changed')
+    fac = []
+    for el, name in zip(ret.value.elts, ('sxx_table', 'rxx_table')):
+        if not (isinstance(el, ast.BinOp) and isinstance(el.op, ast.Mult) and isinstance(el.left, ast.Constant)
+                and float(el.left.value) == int(el.left.value) and ast.unparse(el.right) == name):
+            raise TranslateError('autocorr_lookup_table: returns %s' % ast.unparse(ret))
+        fac.append(int(el.left.value))
+    out.append('(* van_vleck.autocorr_lookup_table: first node (quantised power, true power) of the table np.interp reads *)')
+    out.append('Definition gen_vv_anchor : Z * Z := (%s, %s).' % (coq_Z(fac[0] * firsts['sxx_table']),
+                                                              coq_Z(fac[1] * firsts['rxx_table'])))
+    # where the options sit: after the zero fill
+    rel = 'katdal/vis_flags_weights.py'
+    tree = _parse(repo, rel)
+    init = _method(tree, 'ChunkStoreVisFlagsWeights', '__init__', rel)
+    src = _src(_body(init))
+    k = src.index("vis = darray['correlator_data']") if "vis = darray['correlator_data']" in src else -1
+    want = ["vis = darray['correlator_data']",
+            "if van_vleck == 'autocorr':\n    vis = correct_autocorr_quantisation(vis, corrprods)\nelif van_vleck != 'off':\n"
+            "    raise ValueError(f\"The van_vleck parameter should be one of ['off', 'autocorr'], got '{van_vleck}' instead\")",
+            "stored_weights = darray['weights'] * darray['weights_channel'][..., np.newaxis]",
+            "if corrprods is not None:\n    if stored_weights_are_scaled:\n        weights = stored_weights\n"
+            "        unscaled_weights = _scale_weights(vis, stored_weights, corrprods, divide=False)\n    else:\n"
+            "        weights = _scale_weights(vis, stored_weights, corrprods, divide=True)\n        unscaled_weights = stored_weights\n"
+            "else:\n    if not stored_weights_are_scaled:\n"
+            "        raise ValueError('Stored weights are unscaled but no corrprods are provided')\n"
+            "    weights = stored_weights\n    unscaled_weights = None",
+            'VisFlagsWeights.__init__(self, vis, flags, weights, unscaled_weights)']
+    if k < 0 or src[k:] != want:
+        raise TranslateError('ChunkStoreVisFlagsWeights.__init__: the option handling after the zero fill is %s' % (src[k:] if k >= 0 else None))
+    out.append('(* ChunkStoreVisFlagsWeights: van_vleck and the weight scaling act on the zero-filled arrays; weights are divided by'
+               ' the autocorrelations iff corrprods are given and the stored weights are not scaled *)')
+    out.append('Definition gen_options_after_zero_fill : bool := true.')
+    out.append('Definition gen_weights_divided (have_corrprods stored_scaled : bool) : bool := andb have_corrprods (negb stored_scaled).')
+    ca = _mfunc(tree, 'correct_autocorr_quantisation', rel)
+    calls = [n for n in ast.walk(ca) if isinstance(n, ast.Call) and ast.unparse(n.func) == 'np.interp']
+    if len(calls) != 1 or len(calls[0].args) != 3 or calls[0].keywords or \
+            [ast.unparse(a) for a in calls[0].args[1:]] != ['quantised_autocorr_table', 'true_autocorr_table']:
+        raise TranslateError('correct_autocorr_quantisation: np.interp call changed')
+    out.append('Definition gen_vv_interp_clamps : bool := true.   (* np.interp without left= / right=: clamps outside the table *)')
+
+
+def _bexpr(node, names, what):
+    """boolean expression over integer comparisons -> Coq bool"""
+    if isinstance(node, ast.BoolOp) and isinstance(node.op, (ast.And, ast.Or)):
+        f = 'andb' if isinstance(node.op, ast.And) else 'orb'
+        parts = [_bexpr(v, names, what) for v in node.values]
+        out = parts[-1]
+        for x in reversed(parts[:-1]):
+            out = '(%s %s %s)' % (f, x, out)
+        return out
+    if isinstance(node, ast.Compare) and len(node.ops) == 1 and type(node.ops[0]) in OPS:
+        def term(t):
+            src = ast.unparse(t)
+            if src in names:
+                return names[src]
+            if isinstance(t, ast.Constant) and isinstance(t.value, int) and not isinstance(t.value, bool):
+                return coq_Z(t.value)
+            raise TranslateError('%s: unsupported term %s' % (what, src))
+        return '(%s %s %s)' % (term(node.left), OPS[type(node.ops[0])], term(node.comparators[0]))
+    raise TranslateError('%s: unsupported condition %s' % (what, ast.unparse(node)))
+
+
+def item_dict_store(repo, out):
+    """DictChunkStore.get_chunk: a store that hands out views of arrays it owns; which requests are 'not found'."""
+    rel = 'katdal/chunkstore_dict.py'
+    tree = _parse(repo, rel)
+    init = _method(tree, 'DictChunkStore', '__init__', rel)
+    if _src(_body(init)) != ['error_map = {KeyError: ChunkNotFound, IndexError: ChunkNotFound}',
+                             'super().__init__(error_map)', 'self.arrays = kwargs']:
+        raise TranslateError('DictChunkStore.__init__ changed')
+    gc = _method(tree, 'DictChunkStore', 'get_chunk', rel)
+    b = _body(gc)
+    src = _src(b)
+    if len(b) != 4 or src[0] != 'chunk_name, shape = self.chunk_metadata(array_name, slices, dtype=dtype)' or \
+            not isinstance(b[1], ast.With) or ast.unparse(b[1].items[0]) != 'self._standard_errors(chunk_name)' or \
+            not src[2].startswith('if chunk.shape != shape or chunk.dtype != dtype:\n    raise BadChunk(') or src[3] != 'return chunk':
+        raise TranslateError('DictChunkStore.get_chunk changed: %s' % src)
+    w = _src(b[1].body)
+    if w[0] != 'array = self.arrays[array_name]' or w[-1] != 'chunk = array[slices] if slices != () else array':
+        raise TranslateError('DictChunkStore.get_chunk: lookup statements are %s' % w)
+    mid = b[1].body[1:-1]
+    if not mid:
+        # the pinned code: slicing beyond the end silently gives an empty array (-> BadChunk): finding C06-F2
+        cond = 'false'
+    else:
+        t = mid[0].test if (len(mid) == 1 and isinstance(mid[0], ast.If) and not mid[0].orelse) else None
+        if not (t is not None and len(mid[0].body) == 1 and ast.unparse(mid[0].body[0]).startswith('raise IndexError(')
+                and isinstance(t, ast.Call) and ast.unparse(t.func) == 'any' and len(t.args) == 1
+                and isinstance(t.args[0], ast.GeneratorExp) and len(t.args[0].generators) == 1
+                and ast.unparse(t.args[0].generators[0].target) == '(s, n)'
+                and ast.unparse(t.args[0].generators[0].iter) == 'zip(slices, array.shape)'
+                and not t.args[0].generators[0].ifs):
+            raise TranslateError('DictChunkStore.get_chunk: out-of-range test is %s' % _src(mid))
+        cond = _bexpr(t.args[0].elt, {'s.start': 'start', 's.stop': 'stop', 'n': 'n'}, 'DictChunkStore.get_chunk')
+    out.append('(* DictChunkStore.get_chunk: on some axis (slice start..stop, array length n) the chunk is reported ChunkNotFound iff *)')
+    out.append('Definition gen_dict_outside (start stop n : Z) : bool := %s.' % cond)
+    out.append('Definition gen_dict_returns_view : bool := true.   (* chunk = array[slices]: memory owned by the store *)')
+
+
+ITEMS = [item_prune, item_fill, item_getters, item_prune_head, item_preselect, item_lostmap, item_options, item_dict_store]
